@@ -472,6 +472,14 @@ func genC11(r *rand.Rand, tier string, st *Stats) []Case {
 			}
 		}
 	}
+	// the strconv.Atoi / Itoa model at its edges (sign, blanks, underscores, int64 range)
+	for _, lit := range []string{"+5", "-0", " 7", "7 ", "1_0", "0x10", "1e3", "--1", "+", "-", "007",
+		"9223372036854775807", "9223372036854775808", "-9223372036854775808", "-9223372036854775809"} {
+		g.proc("at", "t", "return 0 + "+quote(lit), map[string]string{"cell": "number,PLUS,string"})
+		g.proc("at", "t", "return "+quote(lit)+" * 1", map[string]string{"cell": "string,MULT,number"})
+		g.proc("at", "p", "return 1 <= "+quote(lit), map[string]string{"cell": "number,LESSEQ,string"})
+		g.proc("at", "t", "return "+quote(lit)+" + ( 0 - 12 )", map[string]string{"cell": "string,PLUS,number"})
+	}
 	// variables the checker does not know: `matchNumber` (a number at run time), unset names
 	for _, e := range []string{"matchNumber + 1", "matchNumber + '1'", "matchNumber == 1", "matchNumber * 2", "head matchNumber",
 		"nosuch + 'x'", "nosuch == ''", "matchLength + 1", "match + match", "matchLength * matchLength"} {
